@@ -180,6 +180,12 @@ def run_case(case):
                 reqs = [mk('1', *a), mk('2', *b), mk('3', *d3)]
                 judge(doc_of(reqs, groups), reqs, groups, f'{shape} {a} {b} {d3} on {case["edges"]} {case["lengths"]}/'
                       f'{case["style"]}', False)
+            # two groups of two requests each between the same sites, whose request ids read the same when written one
+            # after the other ('1'+'23' and '12'+'3'): they are two groups
+            reqs = [mk('1', *a), mk('23', *a), mk('12', *b), mk('3', *b)]
+            for groups in ([['1', '23'], ['12', '3']], [['12', '3'], ['23', '1']]):
+                judge(doc_of(reqs, groups), reqs, groups, f'two-groups-similar-ids {a} {b} on {case["edges"]} {case["lengths"]}/'
+                      f'{case["style"]}', False)
             if len(viol) > 10:
                 break
     for v in viol:
